@@ -423,6 +423,11 @@ def handle (j : Json) : Except String Json := do
     | .ok r => pure (respond .ok [("heads_distinct", Json.bool r.headsDistinct), ("cyclic", Json.bool r.cyclic),
         ("sgs", jarr (fun p => Json.mkObj [("head", jstr p.1.head), ("c", circuitToJson p.2)]) r.sgs)])
     | .error e => pure (respond e [])
+  | "supergates_super" =>
+    match Supergates.runSuper (← circuitOfJson (← j.getObjVal? "c")) ord with
+    | .ok r => pure (respond .ok [("super", circuitToJson r.1),
+        ("map", jarr (fun p => Json.mkObj [("name", jstr p.1), ("c", circuitToJson p.2)]) r.2)])
+    | .error e => pure (respond e [])
   | "verilog_write" =>
     match Verilog.write (← circuitOfJson (← j.getObjVal? "c")) (getBoolD j "behavioral" false) ord with
     | .ok t => pure (respond .ok [("text", jstr t)])
